@@ -143,11 +143,22 @@ func (db *ContractDB) loadContractFile(path, pkgPath string) error {
 		lineNo++
 		line := sc.Text()
 		t := strings.TrimSpace(line)
-		if !strings.HasPrefix(t, "//@") {
-			continue
+		var body string
+		if strings.HasSuffix(path, ".contracts") {
+			if t == "" {
+				continue
+			}
+			body = line
+		} else {
+			if !strings.HasPrefix(t, "//@") {
+				continue
+			}
+			body = strings.TrimPrefix(t, "//@")
+			if strings.HasPrefix(body, " ") {
+				body = body[1:]
+			}
 		}
-		body := strings.TrimPrefix(t, "//@")
-		if strings.HasPrefix(body, "  ") || strings.HasPrefix(body, "\t") {
+		if strings.HasPrefix(body, " ") || strings.HasPrefix(body, "\t") {
 			// continuation
 			if len(clauses) > 0 {
 				clauses[len(clauses)-1].text += "\n" + body
